@@ -366,11 +366,22 @@ func TestAdhoc(t *testing.T) {
 	t0 := time.Now()
 	nv := 0
 	classes := map[string]int{}
+	probes := map[string]int{}
+	ntCount := 0
+	defer func() {
+		fmt.Printf("nontrivial=%d probes=%v\n", ntCount, probes)
+	}()
 	for i := from; i < from+n; i++ {
 		seed := DeriveSeed(base, prop, i)
 		sc := p.Gen(seed, tier)
 		r := Execute(t, sc, nil)
 		nt := p.Nontrivial != nil && p.Nontrivial(r)
+		if nt {
+			ntCount++
+		}
+		for k, v := range r.Probes {
+			probes[k] += v
+		}
 		if os.Getenv("VERIF_QUIET") == "" {
 			fmt.Printf("i=%d seed=%d hash=%s steps=%d virt=%v budget=%q leak=%q viol=%d events=%d nt=%v probes=%v\n", i, seed, r.Hash, r.Steps, r.Virtual, r.Budget, trunc(r.Leak, 300), len(r.Viol), r.H.Len(), nt, r.Probes)
 		}
